@@ -159,14 +159,83 @@ def rule_initadd(chk, prog, tier, rid='C02.i', bits=False):
     r.exhaustive = True
 
 
+# ------------------------------------------------------------------ C02.m the bootstrap recipe itself
+
+def rule_makefile(chk, prog, tier):
+    r = chk.rule('C02.m', 'the bootstrap recipe really is a fixed-point test: stage2 is compiled by the stage-1 cproc, stage3 by the stage-2 cproc, every object is compiled by $(CC) into $(objdir), and `bootstrap` compares both binaries of stage2 and stage3',
+                 floor=25)
+    import os, re
+    path = os.path.join(facts.REPO, 'Makefile')
+    try:
+        text = open(path).read()
+    except OSError:
+        raise AnalysisBroken('Makefile not found')
+    text = text.replace('\\\n', ' ')
+    rules = {}
+    cur = None
+    for line in text.split('\n'):
+        m = re.match(r'^([^\s:#=][^:=]*):(?!=)\s*([^;]*)(?:;\s*(.*))?$', line)
+        if m and not line.startswith('\t'):
+            for tg in m.group(1).split():
+                cur = rules.setdefault(tg, {'deps': [], 'recipe': []})
+                cur['deps'] += m.group(2).split()
+                if m.group(3): cur['recipe'].append(m.group(3))
+            cur = [rules[tg] for tg in m.group(1).split()]
+        elif line.startswith('\t') and cur:
+            for c_ in cur: c_['recipe'].append(line.strip())
+        elif line.strip() == '':
+            pass
+        else:
+            cur = None
+    def submake(tg):
+        for l in rules.get(tg, {}).get('recipe', []):
+            if '$(MAKE)' in l:
+                args = dict(re.findall(r"(\w+)=('[^']*'|\S+)", l))
+                return {k: v.strip("'").replace('$@', tg) for k, v in args.items()}
+        return None
+    objdir_default = re.search(r'^objdir\s*=\s*(\S+)', text, re.M)
+    od = objdir_default.group(1) if objdir_default else None
+    def norm(p):
+        p = p.replace('$(objdir)', od or '?')
+        return os.path.normpath(p)
+    for tg, want_cc, dep in (('stage2', 'cproc', 'all'), ('stage3', 'stage2/cproc', 'stage2')):
+        sm = submake(tg)
+        r.instance(sm is not None, 'makefile:%s:submake' % tg, 'Makefile', '%s does not run a sub-make' % tg)
+        if sm is None: continue
+        r.instance(sm.get('objdir') == tg, 'makefile:%s:objdir' % tg, 'Makefile', '%s builds into objdir=%s' % (tg, sm.get('objdir')))
+        r.instance(norm(sm.get('CC', '?')) == want_cc, 'makefile:%s:CC' % tg, 'Makefile', '%s is compiled by CC=%s (resolves to %s); a fixed-point test needs %s' % (tg, sm.get('CC'), norm(sm.get('CC', '?')), want_cc))
+        r.instance(dep in rules[tg]['deps'], 'makefile:%s:dep' % tg, 'Makefile', '%s does not depend on %s' % (tg, dep))
+        sd = sm.get('stagedeps', '').split()
+        r.instance(sorted(sd) == sorted([want_cc, want_cc + '-qbe']), 'makefile:%s:stagedeps' % tg, 'Makefile', 'objects of %s are not rebuilt when the compiler that builds them changes (stagedeps=%s)' % (tg, sd))
+    b = rules.get('bootstrap')
+    r.instance(b is not None and 'stage2' in b['deps'] and 'stage3' in b['deps'], 'makefile:bootstrap:deps', 'Makefile', 'bootstrap must build stage2 and stage3')
+    for exe in ('cproc', 'cproc-qbe'):
+        ok = b is not None and any(re.match(r'^@?cmp\s+(-s\s+)?stage2/%s\s+stage3/%s$|^@?cmp\s+(-s\s+)?stage3/%s\s+stage2/%s$' % (exe, exe, exe, exe), l) for l in b['recipe'])
+        r.instance(ok, 'makefile:bootstrap:cmp:%s' % exe, 'Makefile', 'bootstrap does not compare stage2/%s with stage3/%s' % (exe, exe))
+    # object rules: compiled by $(CC) into $(objdir), depend on $(stagedeps)
+    nobj = 0
+    for tg, rl in rules.items():
+        m = re.match(r'^\$\(objdir\)/(\w+)\.o$', tg)
+        if not m: continue
+        nobj += 1
+        rec = ' '.join(rl['recipe'])
+        ok = re.search(r'^\$\(CC\)\s', rec) is not None and '-o $@' in rec and ('%s.c' % m.group(1)) in rec and '$(stagedeps)' in rl['deps']
+        r.instance(ok, 'makefile:object:%s' % m.group(1), 'Makefile', 'object rule `%s` must compile %s.c with $(CC) into $@ and depend on $(stagedeps): %s' % (tg, m.group(1), rec))
+    if nobj < 15:
+        raise AnalysisBroken('only %d object rules recognised in the Makefile' % nobj)
+    r.exhaustive = True
+
+
 def run(chk, tier):
     progs = facts.programs()
     prog = progs['cproc-qbe']
     chk.guard('C02.a', lambda: rule_subset(chk, progs, tier))
     chk.guard('C02.i', lambda: rule_initadd(chk, prog, tier))
+    chk.guard('C02.m', lambda: rule_makefile(chk, prog, tier))
     chk.guard('C20.a', lambda: c20.rule_apis(chk, prog, tier))
     chk.guard('C20.b', lambda: c20.rule_addresses(chk, prog, tier))
     chk.guard('C20.c', lambda: c20.rule_iteration(chk, prog, tier))
     chk.guard('C20.e', lambda: c20.rule_constructors(chk, prog, tier))
+    chk.guard('C20.g', lambda: c20.rule_unsequenced(chk, prog, tier))
     chk.guard('C16.b', lambda: c16.rule_hash(chk, prog, tier))
     chk.guard('C01.a', lambda: c01.rule_binop(chk, prog, tier))
